@@ -108,6 +108,11 @@ class T:
                 return f"(SAssign {q(tg.id)} {e})"
             if isinstance(tg, ast.Subscript) and is_self_attr(tg.value, "cache") and self.is_key(tg.slice):
                 return f"(SCacheSet {self.expr(tg.slice)} {self.expr(st.value)})"
+        # <var>._module = None : the cached default module is dropped (no counterpart in M, like the globals update)
+        if (isinstance(st, ast.Assign) and len(st.targets) == 1 and isinstance(st.targets[0], ast.Attribute)
+                and st.targets[0].attr == "_module" and isinstance(st.targets[0].value, ast.Name)
+                and isinstance(st.value, ast.Constant) and st.value.value is None):
+            return f"(SGlobalsUpdate {q(st.targets[0].value.id)})"
         if isinstance(st, ast.Expr) and isinstance(st.value, ast.Call):
             c = st.value
             if (ast.unparse(c.func).endswith(".globals.update") and isinstance(c.func.value.value, ast.Name)
